@@ -1,3 +1,15 @@
 import MpfVerif.DriverLoop
 import MpfVerif.Model.LogicBlock
-def main : IO UInt32 := MpfVerif.runDriver MpfVerif.LogicBlock.driverStep MpfVerif.LogicBlock.driverInit
+import MpfVerif.Model.StateMachine
+/-! the C18 driver serves two models: lines starting with `sm ` go to the state-machine model, everything else to the
+logic-block model (unknown lines: `bad-op` in both) -/
+structure C18State where
+  lb : MpfVerif.LogicBlock.Sys := {}
+  sm : MpfVerif.StateMachine.D := {}
+
+def c18Step (st : C18State) (line : String) : C18State × String :=
+  match line.splitOn " " with
+  | "sm" :: rest => let r := MpfVerif.StateMachine.driverStep st.sm rest; ({ st with sm := r.1 }, r.2)
+  | _ => let r := MpfVerif.LogicBlock.driverStep st.lb line; ({ st with lb := r.1 }, r.2)
+
+def main : IO UInt32 := MpfVerif.runDriver c18Step {}
